@@ -52,6 +52,9 @@ func (mc *MorxChainSubtable) parseEnd(src []byte, _ int) (int, error) {
 	if L := len(src); L < int(mc.length) {
 		return 0, fmt.Errorf("EOF: expected length: %d, got %d", mc.length, L)
 	}
+	if mc.length < 12 { // the length includes the header: the next subtable must start after it
+		return 0, fmt.Errorf("invalid morx subtable length: %d", mc.length)
+	}
 	return int(mc.length), nil
 }
 
